@@ -9,8 +9,10 @@ The single float product `abs(dd) * 3600` is handed to the model as the rational
 to, together with the proof obligation (checked in Coq) that it is within half an ulp of the
 exact product (equal when the product is exact).  Python's `f'{h/100:.2f}'` and the second
 rounding of to_qdms are validated against the model on their whole finite domains.
-MGRS and pyproj round-trip tolerances are third-party numerics: observed on a FIXED corpus,
-no theorem.  D20 (to_projection wraps projected metres) is replayed as a known finding.
+MGRS and pyproj round-trip tolerances are third-party numerics: no theorem.  pyproj: observed on a
+FIXED corpus.  MGRS: judged directly (WGS84 chord against the property's 1.5 m) on a fixed lattice +
+edge enumeration over both UPS caps, every UTM zone edge and the Norway/Svalbard exceptions, plus
+seeded positions in the same strata (mgrs_families; the bound has an analytic margin).  D20 (to_projection wraps projected metres) is replayed as a known finding.
 """
 import math
 import os
@@ -63,6 +65,101 @@ def ptol(x, y):
 def dist360(a, b):
     d = abs(F(a) - F(b))
     return min(d, abs(d - 360))
+
+
+MGRS_BOUND_M = 1.5            # the property's figure.  A 1 m reference names the south-west corner of its cell, so the
+#                               read-back is at most sqrt(2) GRID metres away = sqrt(2)/k ground metres with the point scale
+#                               k >= 0.994 (UPS at the pole; UTM >= 0.9996): <= 1.4228 m.  Measured on the unchanged tree
+#                               over 59 059 edge positions and 11 000 lattice positions: 1.4115 m (UPS), 1.4051 m (UTM).
+
+
+def wgs84_chord_m(lon1, lat1, lon2, lat2):
+    """straight-line distance (m) between two geodetic positions on the WGS84 ellipsoid (h = 0)"""
+    a = 6378137.0
+    f = 1 / 298.257223563
+    e2 = f * (2 - f)
+
+    def ecef(lon, lat):
+        la, lo = math.radians(lat), math.radians(lon)
+        n = a / math.sqrt(1 - e2 * math.sin(la) ** 2)
+        return (n * math.cos(la) * math.cos(lo), n * math.cos(la) * math.sin(lo), n * (1 - e2) * math.sin(la))
+    return math.dist(ecef(lon1, lat1), ecef(lon2, lat2))
+
+
+def mgrs_families(ck):
+    """MGRS round-trip positions, as (lon, lat, class, zm).
+
+    Mechanism class covered: anything from_mgrs / to_mgrs do to a position IN ADDITION to the grid library's own
+    conversion (offsets, re-centring, rounding, datum or axis mix-ups) whose size or direction depends on WHERE the
+    position is: the two polar UPS grids (no zone number; grid north is the 0 / 180 meridian, so the grid axes are turned
+    against true north/east by the longitude itself - 90 degrees at lon +-90, 180 degrees at the antimeridian), the 60
+    UTM zones with their edges, the Norway (32V) and Svalbard (31X..37X) exceptions, the band limits 84N / 80S, the
+    poles and the +-180 seam.  An error of this kind shows only for part of the sub-metre offsets inside a cell, so
+    every stratum holds hundreds of positions with full-precision fractions.
+      * 'lattice-*' and 'edge-*' are FIXED (a low-discrepancy lattice and an enumeration: same positions and same verdict
+        for every VERIF_SEED; DESIGN 2.3 corpus policy for the clause no theorem decides; triaged on the unchanged tree:
+        quiet, worst 1.4115 m);
+      * 'seeded-*' adds positions from ck.rng in the same strata.  The bound has an analytic margin (sqrt(2)/0.994 =
+        1.4228 m < 1.5 m for a reference that names the south-west corner of a 1 m cell), so these cannot make the
+        unchanged tree flaky.
+    """
+    rng = ck.rng
+    out = []
+    g1, g2 = 0.6180339887498949, 0.7548776662466927     # golden / plastic ratios: a 2-d low-discrepancy lattice
+    big = ck.tier != 'quick'
+
+    def lattice(cls, n, lon_of, lat_of):
+        for i in range(1, n + 1):
+            out.append((lon_of((i * g1) % 1), lat_of((i * g2) % 1), cls, {}))
+
+    def wrap(lo):
+        return (lo + 180) % 360 - 180
+    n = 6000 if big else 1200
+    allon = lambda u: -180 + 360 * u                   # noqa: E731
+    for cap, lat_of in (('north', lambda v: 84 + 6 * v), ('south', lambda v: -80 - 10 * v)):
+        lattice(f'lattice-ups-{cap}', n, allon, lat_of)
+        lattice(f'lattice-ups-{cap}-antimeridian', n // 2, lambda u: wrap(180 + 60 * (u - .5)), lat_of)       # grid turned ~180
+        lattice(f'lattice-ups-{cap}-lon+90', n // 4, lambda u: 90 + 40 * (u - .5), lat_of)                    # grid turned ~90
+        lattice(f'lattice-ups-{cap}-lon-90', n // 4, lambda u: -90 + 40 * (u - .5), lat_of)
+        lattice(f'lattice-ups-{cap}-prime-meridian', n // 4, lambda u: 40 * (u - .5), lat_of)
+        s = 1 if cap == 'north' else -1
+        lattice(f'lattice-ups-{cap}-near-pole', n // 4, allon, lambda v: s * (90 - 0.2 * v * v))            # down to < 1 m from the pole
+        lattice(f'lattice-ups-{cap}-band-limit', n // 4, allon, lambda v: (84 if s > 0 else -80) + s * 0.01 * v)
+    lattice('lattice-utm', n, allon, lambda v: -80 + 164 * v)
+    lattice('lattice-utm-norway-svalbard', n // 2, lambda u: -3 + 48 * u, lambda v: 56 + 28 * v)       # 31V/32V, 31X..37X
+    # enumerated edges: band limits, poles, every zone edge, the exception zones' edges, +-90 / +-180, each approached
+    # from both sides
+    eps = [0.0, 1e-9, -1e-9, 1e-5, -1e-5, 0.37, -0.37]
+    lons = list(range(-180, 181, 6)) + [3, 9, 21, 33, 42, 12, -90, 90, 45, -45, 135, -135]
+    for la0 in (84, -80, 90, -90, 72, 56, 64, 0, 80, -8):
+        for e1 in (eps if big else eps[:5]):
+            la = la0 + e1
+            if abs(la) > 90:
+                continue
+            for lo0 in lons:
+                for e2 in (eps if big else (0.0, 1e-9, -1e-5, 0.37)):
+                    lo = lo0 + e2
+                    if -180 <= lo <= 180:
+                        out.append((lo, la, 'edge-ups' if (la >= 84 or la < -80) else 'edge-utm', {}))
+    # seeded positions in the same strata (a third of them carrying Z / M)
+    m = 40000 if big else 2500
+    for i in range(m):
+        r = rng.random()
+        if r < .3:
+            lo, la = rng.uniform(-180, 180), rng.uniform(84, 90)
+        elif r < .6:
+            lo, la = rng.uniform(-180, 180), rng.uniform(-90, -80)
+        elif r < .75:
+            lo = wrap(180 + rng.uniform(-30, 30))
+            la = rng.uniform(84, 90) if rng.random() < .5 else rng.uniform(-90, -80)
+        elif r < .8:
+            lo, la = rng.uniform(-180, 180), rng.choice([1, -1]) * (90 - 10 ** rng.uniform(-7, -1))
+        else:
+            lo, la = rng.uniform(-180, 180), rng.uniform(-80, 84)
+        zm = {} if i % 3 else rng.choice([{'z': 12.5}, {'m': 3}, {'z': -40.0, 'm': 2.5}])
+        out.append((lo, la, 'seeded-ups' if (la > 84 or la < -80) else 'seeded-utm', zm))
+    return out
+
 
 
 def gen_coords(ck):
@@ -368,25 +465,41 @@ def main():
         import mgrs  # noqa
         zm_variants = [{}, {'z': 12.5}, {'m': 3}, {'z': 10.0, 'm': 2}, {'z': 10.0, 'm': 4.0}, {'z': 5, 'm': 7}]
         mgrs_pts = fixed_pts + [(10.0, 86.0), (-120.0, -88.0), (6.0, 60.0), (9.0, 72.0), (33.0, 78.0)]
-        for pi_, (lo, la) in enumerate(mgrs_pts * 2):
-            # second pass: the same positions carrying Z / M values (which must not reach the grid conversion)
-            zm = {} if pi_ < len(mgrs_pts) else zm_variants[1 + pi_ % (len(zm_variants) - 1)]
+        corpus = [(lo, la, 'fixed', {}) for lo, la in mgrs_pts]
+        # second pass: the same positions carrying Z / M values (which must not reach the grid conversion)
+        corpus += [(lo, la, 'fixed-zm', zm_variants[1 + (len(mgrs_pts) + i) % (len(zm_variants) - 1)])
+                   for i, (lo, la) in enumerate(mgrs_pts)]
+        corpus += mgrs_families(ck)
+        n_flagged, worst = 0, {}
+        for lo, la, cls, zm in corpus:
             c = Coordinate(lo, la, **zm)
             try:
                 s = c.to_mgrs()
                 b = Coordinate.from_mgrs(s)
             except Exception as ex:   # noqa  a reference the writer emits must be readable
-                m = {'k': 'mgrs', 'coord': [lo, la], 'zm': zm, 'raised': repr(ex)}
+                m = {'k': 'mgrs', 'class': cls, 'coord': [repr(lo), repr(la)], 'zm': zm, 'raised': repr(ex)}
                 flag(m, 'mgrs-roundtrip', f'to_mgrs/from_mgrs raised {ex!r}')
                 add('KRhu 0 0 0', m)
                 continue
-            dm = math.hypot((b.latitude - c.latitude) * 111320,
-                            min(abs(b.longitude - c.longitude), 360 - abs(b.longitude - c.longitude)) * 111320 * math.cos(math.radians(c.latitude)))
-            ck.count('mgrs')
-            if dm > 1.5:
-                m = {'k': 'mgrs', 'coord': [lo, la], 'zm': zm, 'mgrs': s, 'back': [b.longitude, b.latitude]}
-                flag(m, 'mgrs-roundtrip', f'{dm:.3f} m')
-                add('KRhu 0 0 0', m)
+            # independent oracle of the clause: straight-line (chord) distance between the two positions on the WGS84
+            # ellipsoid, from the closed-form geodetic -> ECEF map (no projection, no library, valid at the poles and
+            # across +-180); at 2 m the chord and the geodesic agree to 1e-13 m
+            dm = wgs84_chord_m(c.longitude, c.latitude, b.longitude, b.latitude)
+            ck.count('mgrs:' + cls)
+            zone = 'UPS' if not s[:1].isdigit() else 'UTM'
+            worst[zone] = max(worst.get(zone, 0.0), dm)
+            if zone == 'UPS' and abs(c.longitude) > 100:
+                nontrivial.add(('mgrs-ups-rotated-grid', s))
+            if dm > MGRS_BOUND_M or (b.z, b.m) != (None, None):
+                n_flagged += 1
+                if n_flagged <= 8:      # the report shows five; the rest is counted
+                    m = {'k': 'mgrs', 'class': cls, 'coord': [repr(lo), repr(la)], 'zm': zm, 'mgrs': s,
+                         'back': [repr(b.longitude), repr(b.latitude)], 'metres_apart_wgs84': dm, 'bound_m': MGRS_BOUND_M}
+                    flag(m, 'mgrs-roundtrip', f'from_mgrs(to_mgrs(c)) is {dm:.3f} m from c (bound {MGRS_BOUND_M} m)'
+                         if dm > MGRS_BOUND_M else f'Z/M reached the grid reference: {(b.z, b.m)}')
+                    add('KRhu 0 0 0', m)
+                ck.count('mgrs:beyond-bound')
+        ck.cov['mgrs_worst_metres'] = {k: round(v, 4) for k, v in sorted(worst.items())}
     except ImportError:
         ck.notes.append('mgrs not importable: MGRS corpus skipped')
 
@@ -417,13 +530,19 @@ def main():
                    'most 6 decimals, are dyadic (exact float product) or full precision; all of to_dms, to_qdms(reverse), '
                    'from_dms, from_qdms on each; hand-made DMS tuples / digit strings; exhaustive tables (6001 format values, '
                    'to_qdms across every hundredth, every tie of the second rounding); round_half_up on guard-exact floats. '
-                   'non-trivial = distinct axis values whose seconds are whole / have a trailing-zero hundredth / reach 60',
+                   'MGRS round trips over both UPS caps (all longitudes, +-180, +-90, poles, band limits), UTM zone edges and the '
+                   'Norway/Svalbard exceptions. '
+                   'non-trivial = distinct axis values whose seconds are whole / have a trailing-zero hundredth / reach 60, and '
+                   'distinct UPS references at |lon| > 100 (grid turned against true north by more than 100 degrees)',
               assumptions=['a float produced by round(x, p) is the double nearest to the decimal k/10**p (checked: value == k/10**p)',
                            'the float product abs(dd)*3600 is within half an ulp of the exact product (checked in Coq per case); '
                            'fmod/divmod of non-negative doubles are exact',
                            'cases where the float addition inside round_half_up could change the chosen decimal (decided in '
                            'exact rationals from the input) are counted and skipped, not compared',
-                           'MGRS (1.5 m) and pyproj (1 m) round trips: third-party numerics, observed on a fixed corpus only, no theorem',
+                           'MGRS (1.5 m) and pyproj (1 m) round trips: third-party numerics, no theorem; pyproj on a fixed corpus only; '
+                           'MGRS judged by the WGS84 chord on a fixed lattice/edge enumeration of both UPS caps, the UTM zone edges and '
+                           'the Norway/Svalbard exceptions plus seeded positions in the same strata (analytic margin: a 1 m reference '
+                           'naming the south-west cell corner is at most sqrt(2)/0.994 = 1.4228 m away)',
                            'from_qdms is modelled on digit strings of the exact width only'])
 
 
@@ -437,6 +556,11 @@ def replay(path):
         print('implementation now: to_dms', c.to_dms(), 'to_qdms', c.to_qdms())
         print('  from_dms(to_dms):', Coordinate.from_dms(*c.to_dms()).to_float(),
               ' from_qdms(to_qdms):', Coordinate.from_qdms(*c.to_qdms()).to_float())
+        if m.get('k') == 'mgrs':
+            c = Coordinate(float(m['coord'][0]), float(m['coord'][1]), **(m.get('zm') or {}))
+            b = Coordinate.from_mgrs(c.to_mgrs())
+            print('  to_mgrs:', c.to_mgrs(), ' from_mgrs(to_mgrs):', (b.longitude, b.latitude), ' WGS84 chord:',
+                  wgs84_chord_m(c.longitude, c.latitude, b.longitude, b.latitude), 'm (bound', MGRS_BOUND_M, 'm)')
         if 'crs' in m:
             p = c.to_projection(m['crs'])
             print('  to_projection:', (p.longitude, p.latitude, p.z))
